@@ -5,6 +5,7 @@
 import PcVerif.Model.Scc.Writer
 import PcVerif.Lemmas.SccRowLemmas
 import PcVerif.Lemmas.SccFileLemmas
+import PcVerif.Lemmas.PopOnStore
 namespace PcVerif.Props.C17
 open PcVerif PcVerif.Scc PcVerif.SccW
 
@@ -117,6 +118,38 @@ theorem write_is_file (caps : List (List Str × Rat × Rat)) (hok : ∀ c ∈ ca
 theorem written_file_rereads (caps : List (List Str × Rat × Rat)) (hok : ∀ c ∈ caps, c.1.length ≤ 15 ∧ ∀ l ∈ c.1, ∀ x ∈ l, Basic x)
     (off : Rat) : heldQ (run (write caps) off) = vis (caps.flatMap fun c => c.1.flatten) :=
   SccW.written_file_rereads caps hok off
+
+/-- **C17 (a stored caption is its rows).** `create_and_store` on the buffer a written caption leaves appends exactly ONE
+    caption — nodes: the rows' texts with break nodes between them; layout: the first row's position — whatever the stash
+    holds and whatever retiming of earlier captions it triggers; the italics passes and the splitting at repositionings leave
+    such a buffer alone -/
+theorem stored_caption_is_rows (S : Stash) (c : Creator) (a b : Rat) (p : Pos) (l : Str) (ls : List Str)
+    (hc : c.coll = bufNodes p (l :: ls)) (ht : ∀ m ∈ l :: ls, Tidy m) :
+    (store S c a b).stash.map view = S.stash.map view ++ [(capNodes p (l :: ls), some p)] :=
+  store_written S c a b p l ls hc ht
+
+/-- **C17 (write, then read: one caption per caption, the same rows, in order).** for every caption set whose captions are
+    1–15 rows of basic characters, each row non-empty and without white space at its end (what `textwrap.fill` lays out), any
+    start and end times, any reading offset: the reader model run on the text the writer model produces stores — apart from
+    the times — exactly one caption per input caption, in order, whose nodes are the caption's rows separated by break nodes
+    and whose position is the first row's (row `16 − n`, column 0).  End to end over `write`, `splitlines`, `translateLine`,
+    `handleDouble`, `command`, `interpret`, the position tracker, `addChars`, `popOn`, `store`, `formatItalics`, `toCaps`,
+    `flush` -/
+theorem written_file_restored (caps : List (List Str × Rat × Rat)) (hg : ∀ c ∈ caps, GoodLines c.1) (off : Rat) :
+    (run (write caps) off).S.stash.map view = caps.map (fun c => capView c.1) :=
+  SccW.written_file_restored caps hg off
+
+/-- non-vacuity: a two-row caption of ordinary characters meets the hypotheses of `written_file_restored` -/
+example : GoodLines ["Hello,".toList, "World 42!".toList] := by
+  refine ⟨by decide, by decide, ?_⟩
+  have key : ∀ l ∈ ["Hello,".toList, "World 42!".toList], ∀ x ∈ l,
+      Generated.Scc.charToCode.any (fun e => e.1 == String.singleton x) = true := by decide +kernel
+  have tidy : ∀ l ∈ ["Hello,".toList, "World 42!".toList], l ≠ [] ∧ Str.rstrip l = l := by decide +kernel
+  intro m hm
+  refine ⟨tidy m hm, ?_⟩
+  intro x hx
+  obtain ⟨e, he, hk⟩ := List.any_eq_true.mp (key m hm x hx)
+  exact ⟨e, he, by simpa using hk⟩
 
 /-- non-vacuity: a two-row caption of ordinary characters meets the hypotheses -/
 example : ∀ c ∈ [("Hello,".toList :: ["World 42!".toList], (1000000 : Rat), (3000000 : Rat))],
